@@ -3,11 +3,11 @@
    piece's true offset, so it inherits C04: `piece_at s off p` says p's text is base s [off, off+len)
    and character q of p reports the same setting OBJECTS, in the same order, as character off+q of s;
    `slice_of s (off, len) p` additionally says p IS s[off:off+len].  `wf_piece`: sorted and closed.
-   (assign_str and replace: theorems are added from Proofs/EditProofs.v.) *)
+   `styles s` = the texts of the settings each character reports, in precedence order. *)
 From AS Require Import Base.
 From AS.Spec Require Import PyStr.
 From AS.Model Require Import Table Ops Parse StrOps.
-From AS.Proofs Require Import TableProofs SliceProofs StrOpsProofs.
+From AS.Proofs Require Import TableProofs SliceProofs PadProofs StrOpsProofs ConcatProofs EditProofs.
 
 (* strip / lstrip / rstrip: offset = number of stripped leading characters *)
 Theorem C11_strip : forall s chars dl dr, ssorted (tbl s) ->
@@ -59,10 +59,55 @@ Proof. exact slices_by_find_spec. Qed.
 Print Assumptions C11_pieces_by_find.
 
 (* every piece is complete in itself *)
-Theorem C11_pieces_closed : forall s sep m right ps, ssorted (tbl s) -> nodup_active s ->
+Theorem C11_pieces_closed : forall s sep m right ps, ssorted (tbl s) -> StrOpsProofs.nodup_active s ->
   split_sep s sep m right = OK ps -> Forall wf_piece ps.
 Proof. exact split_sep_wf. Qed.
 Print Assumptions C11_pieces_closed.
+
+
+(* ---------- assign_str ---------- *)
+(* the settings at every surviving position are kept (same objects) ... *)
+Theorem C11_assign_keep : forall s t k, ssorted (tbl s) -> keys_le (tbl s) (length (base s)) ->
+  k < Nat.min (length (base s)) (length t) -> active_at (tbl (assign s t)) k = active_at (tbl s) k.
+Proof. exact assign_keep. Qed.
+(* ... the last character's settings are extended over added characters ... *)
+Theorem C11_assign_extend : forall s t k, ssorted (tbl s) -> keys_le (tbl s) (length (base s)) ->
+  0 < length (base s) -> length (base s) <= k < length t ->
+  active_at (tbl (assign s t)) k = active_at (tbl s) (length (base s) - 1).
+Proof. exact assign_extend. Qed.
+(* ... those of removed characters are dropped (nothing stays open), and the value stays well formed *)
+Theorem C11_assign_shrink : forall s t, ssorted (tbl s) -> ApplyProofs.nodup_active (tbl s) ->
+  length t < length (base s) -> forall k, length t <= k -> active_at (tbl (assign s t)) k = [].
+Proof. exact assign_shrink_closed. Qed.
+Theorem C11_assign_text_wf : forall s t, base (assign s t) = t /\ (ConcatProofs.WF s -> ConcatProofs.WF (assign s t)).
+Proof. intros s t. split; [apply assign_base | apply assign_WF]. Qed.
+Print Assumptions C11_assign_keep.
+Print Assumptions C11_assign_extend.
+Print Assumptions C11_assign_shrink.
+
+(* ---------- replace (and expandtabs = replace of "\t" by spaces) ----------
+   replace_styles walks the original text and the original per-character styles together: unmatched
+   stretches keep their styles; every match - each one - gets, for a plain-str replacement, the styles
+   of the first character of THAT match repeated over the replacement's length, and for an
+   AnsiString/AnsiStr replacement the replacement's own styles.  The text is str.replace's. *)
+Theorem C11_replace : forall s old r count nid, old <> [] -> repl_ok r -> repl_inv r s nid ->
+  exists s' nid',
+    replace s old r count nid = OK (s', nid')
+    /\ base s' = py_replace (base s) old (repl_text r) count
+    /\ styles s' = replace_styles (base s) (styles s) old r count
+    /\ repl_inv r s' nid'.
+Proof. exact replace_spec. Qed.
+Print Assumptions C11_replace.
+(* the text clause holds for EVERY replacement string, ANSI-coded ones included (repair F27) *)
+Theorem C11_replace_text : forall s old r count nid s' nid', old <> [] ->
+  replace s old r count nid = OK (s', nid') -> base s' = py_replace (base s) old (repl_text r) count.
+Proof. exact replace_text. Qed.
+Print Assumptions C11_replace_text.
+(* nothing to replace: the value is returned as it is *)
+Theorem C11_replace_absent : forall s old r count nid, (forall i, ~ AS.Spec.PyStr.occurs_at old (base s) i) ->
+  replace s old r count nid = OK (s, nid).
+Proof. exact replace_absent. Qed.
+Print Assumptions C11_replace_absent.
 
 (* case conversions keep the table as it is (Exec.op_20 stores the new text with the old table), so
    when the length is preserved every position keeps its settings *)
